@@ -76,6 +76,9 @@ class Report:
                 continue
             self.units[unit] = {'vcs': len(r['verdicts']), 'paths': r.get('paths', 0), 'wall': r.get('wall', 0)}
             self.child_access.update(tuple(a) for a in r.get('child_access', []))
+            cc = (r.get('stats') or {}).get('cpython_crosscheck')
+            if cc:
+                self.vacuity['cpython_crosscheck_runs'] = self.vacuity.get('cpython_crosscheck_runs', 0) + cc.get('tried', 0)
             self.vacuity['feasible_paths'] += r.get('paths', 0)
             self.vacuity['mustfail_guards_refuted'] += sum((r.get('stats') or {}).get('mustfail', {}).values())
             if r.get('error'):
